@@ -95,7 +95,7 @@ def clause_b(facts, rep):
                 idx = linear(e['idx'], _sym_member({'np_'}))
                 if idx is not None and idx.get('np_') == 1:
                     sites.append((bid, i, e, idx))
-        if f.short == 'node':
+        if f.id in push_fn_ids(facts, f.cls_qn):
             # np_++ / np_ += 1 dominated by cap_ - np_ >= 1
             def gen_edge(b, cond, sense):
                 m = guard_lower_bound(cond, sense, _sym_member({'np_', 'cap_'}), 'cap_', 'np_')
@@ -118,7 +118,7 @@ def clause_b(facts, rep):
         if not sites:
             continue
         rep.fn(f)
-        node_ids = {g.id for g in facts.functions if g.short == 'node' and g.cls_qn == f.cls_qn}
+        node_ids = push_fn_ids(facts, f.cls_qn)
 
         def gen_edge(b, cond, sense, node_ids=node_ids):
             c = strip_expect(cond)
@@ -424,6 +424,33 @@ def run(rep, tier):
     ]
 
 
+_PUSH_CACHE = {}
+
+
+def push_fn_ids(facts, cls_qn):
+    """the handler's slot-reserving helper, by role: a parameterless method of the class that advances np_ by one
+    (node() in the pinned source) - whatever it is called"""
+    key_ = (id(facts), cls_qn)
+    if key_ in _PUSH_CACHE:
+        return _PUSH_CACHE[key_]
+    out = set()
+    _PUSH_CACHE[key_] = out
+    for g in facts.functions:
+        if g.cls_qn != cls_qn or g.params or g.d.get('ctor'):
+            continue
+        inc = False
+        other = False
+        for _, _, _, e in g.walk():
+            if (e.get('k') == 'un' and e.get('op') == '++' and is_this_member(e['e'], 'np_')) or \
+               (e.get('k') == 'bin' and e.get('op') == '+=' and is_this_member(e['l'], 'np_') and cval(e['r']) == 1):
+                inc = True
+            if e.get('k') == 'sub' and is_this_member(strip(e.get('base')), 'st_'):
+                other = True
+        if inc and not other:
+            out.add(g.id)
+    return out
+
+
 def clause_e(facts, rep):
     """every slot that a successful node() adds below np_ is given a node type before the
     event returns: TearDown runs ~NodeType() on all of st_[0, np_) and destroy() switches on
@@ -431,9 +458,9 @@ def clause_e(facts, rep):
     TYPERS = ('setLength', 'setType', 'setRaw')
     n = 0
     for f in facts.functions:
-        if f.cls_qn not in ('sonic_json::SAXHandler', 'sonic_json::SchemaHandler') or f.short == 'node':
+        if f.cls_qn not in ('sonic_json::SAXHandler', 'sonic_json::SchemaHandler') or f.id in push_fn_ids(facts, f.cls_qn):
             continue
-        node_ids = {g.id for g in facts.functions if g.short == 'node' and g.cls_qn == f.cls_qn}
+        node_ids = push_fn_ids(facts, f.cls_qn)
         if not any(e.get('cid') in node_ids for _, _, _, e in f.calls()):
             continue
         rep.fn(f)
@@ -458,11 +485,18 @@ def clause_e(facts, rep):
                 return idx is not None and idx.get('np_') == 1 and idx.get(1, 0) == -1
             if e.get('k') == 'un' and e['op'] == '*':
                 return is_slot(e['e'])
+            if e.get('k') == 'ref' and e.get('id') in ref_aliases:
+                return True
             return False
+        ref_aliases = set()     # reference locals bound to st_[np_-1]
         for bid, i, s in f.stmts():
             s_ = strip(s)
             if s_.get('k') == 'decl':
                 for v in s_['vars']:
+                    if v.get('init') is not None and v['t'].rstrip().endswith('&') and not v['t'].rstrip().endswith('&&'):
+                        if is_slot_lv(v['init']):
+                            ref_aliases.add(v['id'])
+                        continue
                     if v.get('init') is not None and '*' in v['t']:
                         ini = strip(v['init'])
                         if is_slot(ini) or (ini.get('k') == 'new' and any(is_slot(a) for a in ini.get('placement', []))):
